@@ -1,69 +1,157 @@
 /-
   C09 — Characteristic values always satisfy their declared constraints.
-  Property theorems only; the model is HapModel/Char.lean (with the C09 repair), helper lemmas
-  live in Proofs/Char.lean.
+  Property theorems only; the model is HapModel/Char.lean (the code at HEAD = with the C09 repair),
+  helper lemmas live in Proofs/Char.lean.
 
   Reading.  `conf cfg p v` is the demand of the property on a value `v` under the declared
   property set `p`: a string no longer than `maxLen` (64 when not declared), a boolean, an `int`
   within `[minValue, maxValue]` for integer formats, a number within the bounds for `float`, and
   one of the declared valid values unless the application opted in to invalid controller values;
-  `null` is the specified value of the always-null type.  `consistent p` says that `p` admits
-  conforming values at all (finite bounds with `min ≤ max`, integral for integer formats, valid
-  values on numeric formats only and inside the bounds, `maxLen ≤ 256`).
+  `null` is the specified value of the always-null type.  `confStrict` is the same without the
+  opt-in exemption (demanded of application-side values), `confB` the same without the
+  valid-values clause.  `consistent p` says that `p` admits conforming values at all (finite
+  bounds with `min ≤ max`, integral for integer formats, valid values on numeric formats only and
+  inside the bounds, `maxLen ≤ 256`, a numeric `minStep`).
+  Alphabet: `set_value`, `client_update_value` (setter callback absent / returning / raising),
+  `override_properties` (every key that matters, `Permissions` included), `Service.configure_char`,
+  reads through `get_value()` / `to_HAP()` (getter callback absent / answering / raising).
   All theorems hold for every value of the two external parameters `E : Ext` (the float
-  step-rounding expression and `str(float)`); `StepExnOk E` is the one assumption on them: the
-  rounding expression raises nothing but `ValueError` / `OverflowError`.
+  step-rounding expression and `str(float)`); `StepExnOk E` is the one assumption on them: on
+  numeric operands the rounding expression raises nothing but `ValueError` / `OverflowError`.
+  `L : Variant` with `L.sound` ranges over the code at HEAD (`repaired`) and HEAD with the
+  candidate repair of `get_value` (`strict`).
 -/
 import Proofs.Char
 namespace Hap.Char
 open Gen
 
 /-- Construction: every consistent property set yields a conforming initial value
-    (`__init__` does not raise). -/
+    (`__init__` does not raise); it conforms strictly (a declared valid value). -/
 theorem C09_init (E : Ext) (cfg : Cfg) (p : Props) (hc : consistent p = true) :
-    ∃ st, init E cfg p = .ok st ∧ st.props = p ∧ conf cfg p st.value = true :=
-  init_ok E cfg hc
+    ∃ st, init E cfg p = .ok st ∧ st.props = p ∧ conf cfg p st.value = true ∧
+      confStrict cfg p st.value = true := by
+  obtain ⟨st, h1, h2, h3⟩ := init_ok E cfg hc
+  exact ⟨st, h1, h2, conf_of_strict h3, h3⟩
+
+/-- The property set in force after an operation is `propsAfter`: a function of the set before
+    and of the operation only — not of the stored value, the configuration, the variant of the
+    code or the external parameters.  Hence `consistentAlong p ops` ("every property set along
+    the history is consistent") is a condition on the *inputs* of a history. -/
+theorem C09_props_static (E : Ext) (L : Variant) (cfg : Cfg) (st : St) (op : Op) :
+    (step E L cfg st op).st.props = propsAfter st.props op :=
+  step_props E L cfg st op
 
 /-- **Invariant.**  From a conforming state, after any sequence of `set_value` /
-    `client_update_value` / `override_properties` / `Service.configure_char` operations (each
-    on its own instance: instances share nothing) with arbitrary arguments (every
-    property set along the way being consistent), the stored value conforms to the property set
-    then in force, and every notified value and every setter-callback argument conformed to the
-    property set in force when it was emitted. -/
-theorem C09_inv (E : Ext) (hE : StepExnOk E) (cfg : Cfg) (st : St) (ops : List Op)
-    (hall : AllConsistent E repaired cfg st ops) (hg : conf cfg st.props st.value = true) :
-    conf cfg (runSt E repaired cfg st ops).props (runSt E repaired cfg st ops).value = true ∧
-    ∀ pe ∈ runLog E repaired cfg st ops, conf cfg pe.1 pe.2.val = true :=
-  run_ok hE ops st hall hg
+    `client_update_value` (setter callback absent, returning or raising) / `override_properties` /
+    `Service.configure_char` / read (`get_value()` or `to_HAP()`, getter callback absent, raising,
+    or answering) operations with arbitrary arguments, every property set along the way being
+    consistent and every getter answer being acceptable (`readsOkAlong`; no such condition for the
+    variant that checks getter answers), the stored value conforms to the property set then in
+    force, and every notified value and every setter-callback argument conformed to the property
+    set in force when it was emitted. -/
+theorem C09_inv (E : Ext) (hE : StepExnOk E) (L : Variant) (hL : L.sound = true) (cfg : Cfg) (st : St)
+    (ops : List Op) (hall : consistentAlong st.props ops = true)
+    (hr : L.getterChecks = true ∨ readsOkAlong E cfg st.props ops = true)
+    (hg : conf cfg st.props st.value = true) :
+    conf cfg (runSt E L cfg st ops).props (runSt E L cfg st ops).value = true ∧
+    ∀ pe ∈ runLog E L cfg st ops, conf cfg pe.1 pe.2.val = true :=
+  run_ok hE hL ops st hall hr hg
 
-/-- The reported value (`to_HAP()['value']`) is the stored one whenever it is present, so it
-    conforms as well. -/
-theorem C09_reported (cfg : Cfg) (st : St) (v : Val) (h : reported st = some v)
-    (hg : conf cfg st.props st.value = true) : conf cfg st.props v = true := by
-  unfold reported at h
-  split at h
-  · cases h; exact hg
-  · cases h
+/-- **Invariant with arbitrary getter callbacks.**  Whatever the getter callbacks answer, the
+    stored value always conforms in format, type, range and length (`confB`: everything but
+    membership in the declared valid values), and every notified value and every setter-callback
+    argument conforms fully. -/
+theorem C09_inv_base (E : Ext) (hE : StepExnOk E) (L : Variant) (hL : L.sound = true) (cfg : Cfg) (st : St)
+    (ops : List Op) (hall : consistentAlong st.props ops = true)
+    (hg : confB cfg st.props st.value = true) :
+    confB cfg (runSt E L cfg st ops).props (runSt E L cfg st ops).value = true ∧
+    ∀ pe ∈ runLog E L cfg st ops, conf cfg pe.1 pe.2.val = true :=
+  run_base hE hL ops st hall hg
 
-/-- **Rejected writes.**  A `set_value` / `client_update_value` that raises (whatever the
-    exception, whatever the variant of the code and the parameters) leaves the whole state
-    unchanged and emits neither a callback nor a notification. -/
-theorem C09_reject_write (E : Ext) (L : Variant) (cfg : Cfg) (st : St) (v : Val) (n : Bool) (e : Exn) :
+/-- The invariant for the code at HEAD *with arbitrary getter answers and full conformance* —
+    kept as a definition: it does not hold (`C09_getter_counterexample`).  `C09_inv` is the part
+    that holds (acceptable answers), `C09_inv_base` what holds for arbitrary ones, and `C09_inv` at
+    the variant `strict` shows that the candidate repair of `get_value` closes the gap. -/
+def C09_statement_with_getters : Prop :=
+  ∀ (E : Ext), StepExnOk E → ∀ (cfg : Cfg) (st : St) (ops : List Op),
+    consistentAlong st.props ops = true → conf cfg st.props st.value = true →
+    conf cfg (runSt E repaired cfg st ops).props (runSt E repaired cfg st ops).value = true
+
+/-- **Every reachable state, every prefix, generated property sets.**  For every consistent
+    property set and configuration: construction succeeds, and after *every prefix* of every
+    history (conditions as in `C09_inv`) the stored value conforms; everything emitted conformed.
+    (Shipped definitions whose properties are overridden along the way are instances: their
+    declared sets are consistent by `C09_shipped_consistent`.) -/
+theorem C09_generated (E : Ext) (hE : StepExnOk E) (L : Variant) (hL : L.sound = true) (cfg : Cfg)
+    (p : Props) (ops : List Op) (hall : consistentAlong p ops = true)
+    (hr : L.getterChecks = true ∨ readsOkAlong E cfg p ops = true) :
+    ∃ st0, init E cfg p = .ok st0 ∧ st0.props = p ∧
+      (∀ n, conf cfg (runSt E L cfg st0 (ops.take n)).props (runSt E L cfg st0 (ops.take n)).value = true) ∧
+      ∀ pe ∈ runLog E L cfg st0 ops, conf cfg pe.1 pe.2.val = true := by
+  obtain ⟨st0, h0, hp, hg⟩ := init_ok E cfg (consistentAlong_head hall)
+  refine ⟨st0, h0, hp, ?_, ?_⟩
+  · intro n
+    refine (run_ok hE hL (ops.take n) st0 ?_ ?_ ?_).1
+    · rw [hp]; exact consistentAlong_take ops p n hall
+    · rcases hr with hr | hr
+      · exact Or.inl hr
+      · right; rw [hp]; exact readsOkAlong_take E cfg ops p n hr
+    · rw [hp]; exact conf_of_strict hg
+  · exact (run_ok hE hL ops st0 (by rw [hp]; exact hall) (by rw [hp]; exact hr)
+      (by rw [hp]; exact conf_of_strict hg)).2
+
+/-- The reported value: `to_HAP()['value']` is the stored value whenever it is present, and what
+    a read returns (`get_value()`, or `to_HAP()` with a getter callback installed) is the value
+    stored *after* that read — a state covered by the invariants, the read being an operation of
+    the alphabet. -/
+theorem C09_reported (E : Ext) (L : Variant) (cfg : Cfg) (st : St) (v : Val) :
+    (reported st = some v → v = st.value) ∧
+    (∀ g h, readResult E L cfg st g h = some v → (step E L cfg st (.read g h)).st.value = v) := by
+  constructor
+  · intro h
+    unfold reported at h
+    split at h
+    · cases h; rfl
+    · cases h
+  · intro g h hr
+    simp only [step]
+    unfold readResult at hr
+    unfold readOp
+    split
+    · simp_all
+    · rename_i hh
+      simp only [hh] at hr
+      cases hx : (getValue E L cfg st g).exn with
+      | some e => simp [hx] at hr
+      | none => simpa [hx] using hr
+
+/-- **Rejected writes.**  `set_value` raises exactly when its conversion-and-validation prefix
+    refuses the value, and then the whole state is unchanged and nothing is emitted.
+    `client_update_value`: when that prefix refuses the value the result is *exactly* the old
+    state, the exception, no callback invocation and no event; the only other way it can raise is
+    the application's own setter callback raising after having been invoked with the checked
+    value.  (Any variant of the code, any parameters.) -/
+theorem C09_reject_write (E : Ext) (L : Variant) (cfg : Cfg) (st : St) (v : Val) (n : Bool) (cb : Cb) (e : Exn) :
+    ((setValue E L cfg st v n).exn = some e ↔ setCheck E L cfg st.props v = .error e) ∧
     ((setValue E L cfg st v n).exn = some e →
       (setValue E L cfg st v n).st = st ∧ (setValue E L cfg st v n).out = []) ∧
-    ((clientUpdate E L cfg st v).exn = some e →
-      (clientUpdate E L cfg st v).st = st ∧ (clientUpdate E L cfg st v).out = []) :=
-  ⟨setValue_reject, clientUpdate_reject⟩
+    (clientCheck E L cfg st.props v = .error e → clientUpdate E L cfg st v cb = ⟨st, some e, []⟩) ∧
+    ((clientUpdate E L cfg st v cb).exn = some e ↔
+      clientCheck E L cfg st.props v = .error e ∨
+      (∃ v', clientCheck E L cfg st.props v = .ok v' ∧ cb = .raises e ∧
+        (clientUpdate E L cfg st v cb).out = [.callback v'])) :=
+  ⟨setValue_exn E L cfg st v n e, setValue_reject, clientUpdate_rejected, clientUpdate_exn E L cfg st v cb e⟩
 
-/-- **Rejected operations, overrides included.**  Any `set_value` / `client_update_value` /
-    `override_properties` that raises leaves the stored value *and* the property set unchanged
-    and emits nothing (for an override: it can only be refused before anything is modified). -/
-theorem C09_reject (E : Ext) (hE : StepExnOk E) (cfg : Cfg) (st : St) (op : Op) (e : Exn)
-    (hop : ∀ u vv v, op ≠ .configure u vv v)
-    (hc' : consistent (step E repaired cfg st op).st.props = true)
-    (h : (step E repaired cfg st op).exn = some e) :
-    (step E repaired cfg st op).st = st ∧ (step E repaired cfg st op).out = [] :=
-  step_reject hE op hop hc' h
+/-- **Rejected operations, overrides and reads included.**  Any `set_value` /
+    `client_update_value` (callback not raising) / `override_properties` / read that raises leaves
+    the stored value *and* the property set unchanged and emits nothing (an override can only be
+    refused before anything is modified). -/
+theorem C09_reject (E : Ext) (hE : StepExnOk E) (L : Variant) (hL : L.sound = true) (cfg : Cfg) (st : St)
+    (op : Op) (e : Exn) (hop : plainOp op = true)
+    (hc' : consistent (propsAfter st.props op) = true)
+    (h : (step E L cfg st op).exn = some e) :
+    (step E L cfg st op).st = st ∧ (step E L cfg st op).out = [] :=
+  step_reject hE hL op hop hc' h
 
 /-- **`configure_char`.**  It never emits; when it raises, the state is the one its override
     part left (untouched if that part was refused or absent, otherwise new properties with the
@@ -75,53 +163,114 @@ theorem C09_configure (E : Ext) (L : Variant) (cfg : Cfg) (st : St) (u : Upd) (v
       (configure E L cfg st u vv v).st = (configurePre E L cfg st u vv).st :=
   ⟨configure_out E L cfg st u vv v, fun _ h => configure_reject_state h⟩
 
-/-- Every operation emits only while it succeeds, and an override never emits. -/
-theorem C09_override_silent (E : Ext) (L : Variant) (cfg : Cfg) (st : St) (u : Upd) (vv : List Int) :
-    (override E L cfg st u vv).out = [] :=
-  override_out E L cfg st u vv
+/-- An override never emits, and neither does a read. -/
+theorem C09_override_silent (E : Ext) (L : Variant) (cfg : Cfg) (st : St) (u : Upd) (vv : List Int)
+    (g : Getter) (h : Bool) :
+    (override E L cfg st u vv).out = [] ∧ (readOp E L cfg st g h).out = [] :=
+  ⟨override_out E L cfg st u vv, readOp_out E L cfg st g h⟩
+
+/-- **The opt-in exempts controller writes only.**  Whatever `allow_invalid_client_values` is, a
+    successful `set_value` stores and notifies, and an accepted `override_properties` leaves, a
+    value that conforms *strictly* (a declared valid value).  Only `client_update_value` (and an
+    unchecked getter answer) can bring in an undeclared value. -/
+theorem C09_optin_controller_only (E : Ext) (hE : StepExnOk E) (L : Variant) (hL : L.sound = true)
+    (cfg : Cfg) (st : St) :
+    (∀ v n, consistent st.props = true → (setValue E L cfg st v n).exn = none →
+      confStrict cfg st.props (setValue E L cfg st v n).st.value = true ∧
+      ∀ e ∈ (setValue E L cfg st v n).out, confStrict cfg st.props e.val = true) ∧
+    (∀ u vv, consistent (overrideProps st.props u vv) = true → overrideRefused u vv = false →
+      (override E L cfg st u vv).exn = none ∧
+      confStrict cfg (override E L cfg st u vv).st.props (override E L cfg st u vv).st.value = true) := by
+  have hN : L.nullSkipsAll = false := by
+    simp only [Variant.sound, Bool.and_eq_true, Bool.not_eq_true'] at hL; exact hL.1
+  refine ⟨fun v n hc hok => setValue_strict hN hc v n hok, ?_⟩
+  intro u vv hc' hr
+  obtain ⟨h1, _, h3, h4⟩ := override_accepted hE hL (cfg := cfg) (st := st) u vv hr hc'
+  exact ⟨h1, by rw [h3]; exact h4⟩
+
+/-- **What is emitted is what was assigned.**  When the checks of a write pass with `v'`, every
+    event of that write carries `v'`, and `v'` is what the write stores (the always-null type goes
+    back to `null`): stored, notified and callback values cannot drift apart. -/
+theorem C09_emitted_is_assigned (E : Ext) (L : Variant) (cfg : Cfg) (st : St) (v v' : Val) (n : Bool) (cb : Cb) :
+    (setCheck E L cfg st.props v = .ok v' →
+      (∀ e ∈ (setValue E L cfg st v n).out, e = .notify v') ∧
+      (setValue E L cfg st v n).st.value = (if cfg.alwaysNull then .null else v')) ∧
+    (clientCheck E L cfg st.props v = .ok v' →
+      (∀ e ∈ (clientUpdate E L cfg st v cb).out, e.val = v') ∧
+      ((clientUpdate E L cfg st v cb).st.value = v' ∨
+        (cfg.alwaysNull = true ∧ (clientUpdate E L cfg st v cb).st.value = .null))) :=
+  ⟨setValue_emits_assigned, clientUpdate_emits_assigned⟩
 
 /-- The always-null type: the stored (and therefore reported) value is `null` after every
-    operation, whatever its outcome. -/
+    operation, whatever its outcome — except right after a controller write whose setter callback
+    raised (the reset is skipped) or a getter answer (it is stored); those two are excluded by
+    `resetsNull`. -/
 theorem C09_always_null_stored (E : Ext) (L : Variant) (cfg : Cfg) (ha : cfg.alwaysNull = true)
-    (ops : List Op) : ∀ st : St, st.value = .null → (runSt E L cfg st ops).value = .null := by
+    (ops : List Op) (hq : ops.all resetsNull = true) :
+    ∀ st : St, st.value = .null → (runSt E L cfg st ops).value = .null := by
   induction ops with
   | nil => intro st h; exact h
-  | cons op ops ih => intro st h; exact ih _ (step_alwaysNull ha h op)
+  | cons op ops ih =>
+    intro st h
+    simp only [List.all_cons, Bool.and_eq_true] at hq
+    exact ih hq.2 _ (step_alwaysNull ha h op hq.1)
 
 /-- Table theorem: every row of the regenerated `Gen.shipped` is a consistent property set. -/
 theorem C09_shipped_consistent : ∀ d ∈ shipped, consistent d.props = true := by
   have h := shipped_all_consistent
   simpa [List.all_eq_true] using h
 
-/-- **Shipped definitions.**  For every definition in characteristics.json, every
-    configuration, and every sequence of writes with arbitrary arguments (the declared property
-    set staying in force), construction succeeds, the stored value conforms at the end (hence
-    after every prefix) and everything notified or passed to the setter callback conformed. -/
-theorem C09_shipped (E : Ext) (hE : StepExnOk E) (d : Def) (hd : d ∈ shipped)
-    (allowInvalid hasSetter : Bool) (ops : List Op) (hno : noOverride ops = true) :
-    let cfg : Cfg := { alwaysNull := d.alwaysNull, allowInvalid := allowInvalid, hasSetter := hasSetter }
-    ∃ st0, init E cfg d.props = .ok st0 ∧
-      conf cfg (runSt E repaired cfg st0 ops).props (runSt E repaired cfg st0 ops).value = true ∧
-      ∀ pe ∈ runLog E repaired cfg st0 ops, conf cfg pe.1 pe.2.val = true := by
-  intro cfg
-  have hc := C09_shipped_consistent d hd
-  obtain ⟨st0, h0, hp, hg⟩ := init_ok E cfg hc
-  refine ⟨st0, h0, ?_⟩
-  have hc0 : consistent st0.props = true := by rw [hp]; exact hc
-  exact run_ok hE ops st0 (allConsistent_of_noOverride E repaired cfg ops st0 hno hc0) (by rw [hp]; exact hg)
+/-- Table theorem: the model's numeric / integer format classes are the regenerated
+    `HAP_FORMAT_NUMERICS` (integer = numeric and not `float`). -/
+theorem C09_format_table : ∀ f : Fmt,
+    f.isNumeric = numericFormats.contains f ∧ f.isInteger = (numericFormats.contains f && f != .float) := by
+  intro f; cases f <;> decide
 
-/-- Shipped definitions with overrides: the same for histories that also override properties,
-    as long as every overridden set is consistent. -/
-theorem C09_shipped_override (E : Ext) (hE : StepExnOk E) (d : Def) (hd : d ∈ shipped)
-    (allowInvalid hasSetter : Bool) (ops : List Op) :
-    let cfg : Cfg := { alwaysNull := d.alwaysNull, allowInvalid := allowInvalid, hasSetter := hasSetter }
+/-- **Shipped definitions.**  For every definition in characteristics.json, every
+    configuration, and every sequence of writes and reads with arbitrary arguments and arbitrary
+    setter-callback behaviour (the declared property set staying in force, getter answers
+    acceptable): construction succeeds, the stored value conforms after every prefix and
+    everything notified or passed to the setter callback conformed. -/
+theorem C09_shipped (E : Ext) (hE : StepExnOk E) (L : Variant) (hL : L.sound = true) (d : Def)
+    (hd : d ∈ shipped) (allowInvalid : Bool) (ops : List Op) (hno : noOverride ops = true) :
+    let cfg : Cfg := { alwaysNull := d.alwaysNull, allowInvalid := allowInvalid }
+    (L.getterChecks = true ∨ readsOkAlong E cfg d.props ops = true) →
     ∃ st0, init E cfg d.props = .ok st0 ∧
-      (AllConsistent E repaired cfg st0 ops →
-        conf cfg (runSt E repaired cfg st0 ops).props (runSt E repaired cfg st0 ops).value = true ∧
-        ∀ pe ∈ runLog E repaired cfg st0 ops, conf cfg pe.1 pe.2.val = true) := by
-  intro cfg
-  obtain ⟨st0, h0, hp, hg⟩ := init_ok E cfg (C09_shipped_consistent d hd)
-  exact ⟨st0, h0, fun hall => run_ok hE ops st0 hall (by rw [hp]; exact hg)⟩
+      (∀ n, conf cfg (runSt E L cfg st0 (ops.take n)).props (runSt E L cfg st0 (ops.take n)).value = true) ∧
+      ∀ pe ∈ runLog E L cfg st0 ops, conf cfg pe.1 pe.2.val = true := by
+  intro cfg hr
+  have hc := C09_shipped_consistent d hd
+  obtain ⟨st0, h0, _, h1, h2⟩ :=
+    C09_generated E hE L hL cfg d.props ops (consistentAlong_of_noOverride ops d.props hno hc) hr
+  exact ⟨st0, h0, h1, h2⟩
+
+/-! ### getter callbacks at HEAD -/
+
+/-- With a getter callback installed, `get_value` at HEAD stores and returns `to_valid_value` of
+    the answer without the valid-values check: on TargetHeatingCoolingState (uint8, ValidValues
+    {3, 2, 1, 0}) the answer 7 is stored and reported although it is not a declared valid value
+    (it does conform in format and range).  With the candidate repair the read raises and nothing
+    changes.  Replayed on the implementation. -/
+theorem C09_getter_counterexample (E : Ext) :
+    let p : Props := { fmt := .uint8, vv := [3, 2, 1, 0] }
+    let st : St := ⟨p, .int 0⟩
+    conf {} p st.value = true ∧ consistent p = true ∧
+    (step E repaired {} st (.read (.returns (.int 7)) false)).st.value = .int 7 ∧
+    readResult E repaired {} st (.returns (.int 7)) true = some (.int 7) ∧
+    conf {} p (.int 7) = false ∧ confB {} p (.int 7) = true ∧
+    (step E strict {} st (.read (.returns (.int 7)) false)).exn = some .valueError ∧
+    (step E strict {} st (.read (.returns (.int 7)) false)).st = st := by
+  refine ⟨by decide, by decide, rfl, rfl, by decide, by decide, rfl, rfl⟩
+
+/-- hence the invariant with arbitrary getter answers and full conformance fails at HEAD -/
+theorem C09_statement_with_getters_fails : ¬ C09_statement_with_getters := by
+  intro h
+  have hE : StepExnOk ⟨fun _ _ => .error .valueError, fun _ => []⟩ := by
+    intro v s e _ _ he; simp at he; exact Or.inl he.symm
+  have := h _ hE {} ⟨{ fmt := .uint8, vv := [3, 2, 1, 0] }, .int 0⟩ [.read (.returns (.int 7)) false]
+    (by decide) (by decide)
+  revert this
+  decide
 
 /-! ### the code before the repair -/
 
@@ -164,28 +313,83 @@ def idExt : Ext :=
     reprF := fun _ => ['?'] }
 
 example : StepExnOk idExt := by
-  intro v s e h
+  intro v s e _ _ h
   cases v <;> simp [idExt] at h <;> simp [h]
 
 example : StepExnOk overflowing := by
-  intro v s e h; simp [overflowing] at h; simp [h]
+  intro v s e _ _ h; simp [overflowing] at h; simp [h]
+
+/-- an instance that behaves like Python on a non-numeric step: `TypeError` — allowed by
+    `StepExnOk`, which only speaks about numeric operands -/
+def typeErrExt : Ext :=
+  { stepRound := fun v s => if v.isNumeric && s.isNumeric then .error .overflowError else .error .typeError
+    reprF := fun _ => [] }
+
+example : StepExnOk typeErrExt := by
+  intro v s e hv hs h; simp [typeErrExt, hv, hs] at h; exact Or.inr h.symm
+
+example : repaired.sound = true ∧ strict.sound = true ∧ legacy.sound = false := by decide
 
 /-- Brightness-like set: int in [0, 100], step 1 -/
 def demoProps : Props := { fmt := .int, minV := some (.int 0), maxV := some (.int 100), minStep := some (.int 1) }
 
 example : consistent demoProps = true := by decide
+example : consistent { demoProps with minStep := some (.str ['x']) } = false := by decide
 example : (init idExt {} demoProps).toOption = some ⟨demoProps, .int 0⟩ := by decide
--- clamping, a refused string, and an override that invalidates the stored value
+-- clamping, a refused string, a raising setter callback, a getter answer, and an override that
+-- invalidates the stored value
 example :
-    let ops := [Op.set (.int 150) true, Op.client (.str ['a']), Op.client (.float (.fin (mkRat 5 2))),
+    let ops := [Op.set (.int 150) true, Op.client (.str ['a']) .returns,
+                Op.client (.float (.fin (mkRat 5 2))) .returns,
+                Op.client (.int 7) (.raises .other), Op.read (.returns (.int 400)) true,
                 Op.override { maxV := some (.int 1) } []]
-    AllConsistent idExt repaired {} ⟨demoProps, .int 0⟩ ops ∧
+    consistentAlong demoProps ops = true ∧ readsOkAlong idExt {} demoProps ops = true ∧
     runSt idExt repaired {} ⟨demoProps, .int 0⟩ ops = ⟨{ demoProps with maxV := some (.int 1) }, .int 1⟩ ∧
     (runLog idExt repaired {} ⟨demoProps, .int 0⟩ ops).map (·.2) =
-      [.notify (.int 100), .callback (.int 2), .notify (.int 2)] := by
+      [.notify (.int 100), .callback (.int 2), .notify (.int 2), .callback (.int 7)] ∧
+    runSt idExt repaired {} ⟨demoProps, .int 0⟩ (ops.take 5) = ⟨demoProps, .int 100⟩ := by
   decide +kernel
-example : (step idExt repaired {} ⟨demoProps, .int 7⟩ (.client (.str ['a']))).exn = some .valueError := by
+example : (step idExt repaired {} ⟨demoProps, .int 7⟩ (.client (.str ['a']) .returns)).exn = some .valueError ∧
+    plainOp (.client (.str ['a']) .returns) = true := by
   decide
+-- a read whose getter answer is refused (not a number) raises and changes nothing
+example : (step idExt repaired {} ⟨demoProps, .int 7⟩ (.read (.returns (.str ['a'])) false)).exn = some .valueError ∧
+    (step idExt repaired {} ⟨demoProps, .int 7⟩ (.read (.returns (.str ['a'])) false)).st = ⟨demoProps, .int 7⟩ := by
+  decide
+-- an unacceptable getter answer: `readsOkAlong` is false, the stored value is still in range
+example :
+    let p : Props := { fmt := .uint8, vv := [3, 2, 1, 0] }
+    let ops := [Op.read (.returns (.int 7)) false, Op.set (.int 9) true, Op.set (.int 2) true]
+    readsOkAlong idExt {} p ops = false ∧ consistentAlong p ops = true ∧
+    (runSt idExt repaired {} ⟨p, .int 0⟩ (ops.take 2)).value = .int 7 ∧
+    (runSt idExt repaired {} ⟨p, .int 0⟩ ops).value = .int 2 ∧
+    (runSt idExt strict {} ⟨p, .int 0⟩ (ops.take 2)).value = .int 0 := by
+  decide +kernel
+-- the opt-in: a controller may write an undeclared value, the application may not
+example :
+    let cfg : Cfg := { allowInvalid := true }
+    let p : Props := { fmt := .uint8, vv := [1, 0] }
+    (step idExt repaired cfg ⟨p, .int 0⟩ (.client (.int 3) .absent)).st.value = .int 3 ∧
+    conf cfg p (.int 3) = true ∧ confStrict cfg p (.int 3) = false ∧
+    (step idExt repaired cfg ⟨p, .int 3⟩ (.set (.int 3) true)).exn = some .valueError ∧
+    (step idExt repaired cfg ⟨p, .int 3⟩ (.override { other := true } [])).st.value = .int 0 := by
+  decide +kernel
+-- the always-null type with a raising setter callback keeps the written value (the reset is
+-- skipped); it is a declared valid value.  Replayed on the implementation.
+example :
+    let cfg : Cfg := { alwaysNull := true }
+    let p : Props := { fmt := .uint8, vv := [1, 2, 0] }
+    (step idExt repaired cfg ⟨p, .null⟩ (.client (.int 1) (.raises .other))).st.value = .int 1 ∧
+    conf cfg p (.int 1) = true ∧ resetsNull (.client (.int 1) (.raises .other)) = false ∧
+    (step idExt repaired cfg ⟨p, .null⟩ (.client (.int 1) .returns)).st.value = .null := by
+  decide +kernel
+-- an override of `Permissions` that drops `pr`: the value is no longer reported
+example :
+    let r := step idExt repaired {} ⟨demoProps, .int 5⟩ (.override { readable := some false } [])
+    r.exn = none ∧ reported r.st = none ∧ reported ⟨demoProps, .int 5⟩ = some (.int 5) ∧
+    readResult idExt repaired {} r.st (.returns (.int 9)) true = none ∧
+    readResult idExt repaired {} r.st (.returns (.int 9)) false = some (.int 9) := by
+  decide +kernel
 -- configure_char(properties={min 10, max 60}, value=0) on a stored 80: the falsy value is not
 -- set, the override part has already brought 80 down to 60
 example :
@@ -200,5 +404,8 @@ example :
   decide +kernel
 example : conf {} demoProps (.int 101) = false ∧ conf {} demoProps (.float (.fin 5)) = false ∧
     conf {} demoProps (.int 100) = true := by decide
+-- a shipped row, so that `C09_shipped` is not about an empty table
+example : (shipped.find? (fun d => d.name == "Brightness")).map (·.props) = some demoProps := by
+  decide +kernel
 
 end Hap.Char
